@@ -49,7 +49,7 @@ package dispatch
 //@ spec inheritedOpts(parent *Route) RouteOpts = parent != nil ? parent.RouteOpts : DefaultRouteOpts
 
 //@ func newRoutes
-//@   props C07
+//@   props C07 C06
 //@   requires counter != nil
 //@   assumes forall i int :: 0 <= i && i < len(croutes) ==> croutes[i] != nil
 //@   maypanic
@@ -62,7 +62,7 @@ package dispatch
 //@   assigns deref(counter)
 
 //@ func newRoute
-//@   props C07
+//@   props C07 C06
 //@   requires cr != nil && counter != nil
 //@   maypanic
 //@   ensures [node] result != nil && fresh(result) && result.parent == parent && result.Continue == cr.Continue
